@@ -18,7 +18,7 @@ def wrRange (site : String) (buf : Option Bytes) (off : Nat) (src : Bytes) : M (
   | none => if off = 0 ∧ src.length = 0 then pure none else throw (.nullDeref site)
   | some b =>
     if off + src.length ≤ b.length then
-      pure (some (b.take off ++ src ++ b.drop (off + src.length)))
+      pure (some (wr b off src))
     else throw (.oobWrite site)
 
 /-- `new char[n]` (contents unspecified in C++; the model zero-fills and no observation
@@ -32,11 +32,7 @@ theorem rdRange_some_ok {site b off len} (h : off + len ≤ b.length) :
   simp [rdRange, h, pure, Except.pure]
 
 theorem wrRange_some_ok {site b off} {src : Bytes} (h : off + src.length ≤ b.length) :
-    wrRange site (some b) off src = .ok (some (b.take off ++ src ++ b.drop (off + src.length))) := by
+    wrRange site (some b) off src = .ok (some (wr b off src)) := by
   simp [wrRange, h, pure, Except.pure]
-
-theorem wr_length {b : Bytes} {off : Nat} {src : Bytes} (h : off + src.length ≤ b.length) :
-    (b.take off ++ src ++ b.drop (off + src.length)).length = b.length := by
-  simp; omega
 
 end ElfioVerif
